@@ -44,11 +44,12 @@ type snapshotState struct {
 	Vals      map[string]int64  // hex pubkey -> power
 	Committed map[string]bool   // "once:" txs already committed
 	Retain    int64             // retain distance (0 = keep everything)
+	Over      bool              // answer the next Commit with retain_height = height+1 (beyond the tip: tendermint must refuse to prune)
 	InitDone  bool
 }
 
 func (s *snapshotState) clone() *snapshotState {
-	c := &snapshotState{Height: s.Height, Hash: append([]byte{}, s.Hash...), KV: map[string]string{}, Vals: map[string]int64{}, Committed: map[string]bool{}, Retain: s.Retain, InitDone: s.InitDone}
+	c := &snapshotState{Height: s.Height, Hash: append([]byte{}, s.Hash...), KV: map[string]string{}, Vals: map[string]int64{}, Committed: map[string]bool{}, Retain: s.Retain, Over: s.Over, InitDone: s.InitDone}
 	for k, v := range s.KV {
 		c.KV[k] = v
 	}
@@ -327,6 +328,8 @@ func (c *connApp) DeliverTx(req abci.RequestDeliverTx) abci.ResponseDeliverTx {
 			if n, err := strconv.ParseInt(tx[7:], 10, 64); err == nil && n >= 0 {
 				a.work.Retain = n
 			}
+		case strings.HasPrefix(tx, "retainover:"):
+			a.work.Over = true
 		case strings.HasPrefix(tx, "once:"):
 			a.work.Committed[tx] = true
 		default:
@@ -397,6 +400,10 @@ func (c *connApp) Commit() abci.ResponseCommit {
 	res := abci.ResponseCommit{Data: a.appHash(a.com)}
 	if a.com.Retain > 0 && a.com.Height > a.com.Retain {
 		res.RetainHeight = a.com.Height - a.com.Retain
+	}
+	if a.com.Over {
+		res.RetainHeight = a.com.Height + 1
+		a.work.Over = false
 	}
 	a.record(c.conn, Call{Name: "Commit", Height: a.com.Height, Hash: hex.EncodeToString(res.Data)})
 	a.mu.Unlock()
